@@ -384,7 +384,7 @@ class Check:
         for e in self.known:
             if e.get("status") != "open":
                 continue
-            if e.get("site") == site:
+            if e.get("site") == site and re.search(e.get("what_regex", ""), detail or ""):
                 return e
         return None
 
